@@ -106,6 +106,8 @@ META = {
     "C09-receive-from-sockaddr-too-small": ("C09", "receive_from's address buffer is a 16-byte struct sockaddr; needs an IPv6 datagram socket and a caller asking for the sender address"),
     "C10-socket-errno-include-dropped-timeouts": ("C10", "#include <errno.h> removed from psocket.c again (EINTR retries compiled out), shown through the timeout clause; needs a handled signal during a timed blocking call"),
     "C11-sha512-byte-swap-moved-to-digest": ("C11", "the final byte swap of SHA-384/512 moved from finish into digest; needs the result of one finished hash read twice on a little-endian host"),
+    "C12-avl-replace-notifies-new-pair": ("C12", "AVL replace stores the new key and value before calling the notifiers, which then receive the new pair; needs an AVL tree with a notifier and a replace"),
+    "C13-avl-transplanted-leaf-keeps-removed-factor": ("C13", "AVL one-child removal copies the removed node's balance factor onto the leaf that replaces it; needs such a removal, then an insert below that leaf"),
     "C14-bst-node-freed-before-notifiers": ("C14", "BST remove frees the node before handing its key and value to the notifiers; needs an allocator that scrubs or reuses freed blocks"),
     "C15-remove-presence-by-lookup-marker": ("C15", "remove decides presence through p_hash_table_lookup != (ppointer) -1; needs a key stored with the all-ones value"),
     "C16-double-getter-through-float": ("C16", "the double getter keeps the p_strtod result in a pfloat local; needs a value with more than single precision or an exponent beyond 38"),
